@@ -107,6 +107,18 @@ def exc_sig(exc: BaseException) -> str:
     """Bucket an exception by (type, innermost primaite frame)."""
     tb = traceback.extract_tb(exc.__traceback__)
     where = "?"
+    if isinstance(exc, RecursionError):
+        # the innermost frame of a recursion overflow is arbitrary; bucket by the cycle instead: the primaite
+        # functions that occur most often in the traceback identify which recursion it was
+        import collections
+
+        cnt = collections.Counter(
+            f"{os.path.basename(fr.filename)}:{fr.name}" for fr in tb if "/primaite/" in fr.filename
+        )
+        if cnt:
+            top = max(cnt.values())
+            cyc = sorted(k for k, v in cnt.items() if v >= top * 0.6)
+            return "RecursionError@" + "+".join(cyc[:4])
     for fr in reversed(tb):
         if "/primaite/" in fr.filename:
             where = f"{os.path.basename(fr.filename)}:{fr.name}"
